@@ -290,7 +290,17 @@ fn escape_len(b: &[u8], i: usize) -> Option<usize> {
     }
 }
 
+thread_local! {
+    /// set when the last reference parse met a construct whose reading is unspecified
+    static UNSPECIFIED: std::cell::Cell<bool> = const { std::cell::Cell::new(false) };
+}
+
 pub fn ref_key_paths(b: &[u8]) -> Result<Vec<KP>, ()> {
+    UNSPECIFIED.with(|u| u.set(false));
+    ref_key_paths_inner(b)
+}
+
+fn ref_key_paths_inner(b: &[u8]) -> Result<Vec<KP>, ()> {
     let mut i = 0;
     let skip = |i: &mut usize| {
         while *i < b.len() && is_ws(b[*i]) {
@@ -356,7 +366,15 @@ pub fn ref_key_paths(b: &[u8]) -> Result<Vec<KP>, ()> {
                 return Err(());
             }
             let body = &b[s..i];
-            out.push(KP::Name(decode_body(body)?));
+            let name = decode_body(body)?;
+            // an escaped first character: a digit is still a digit (names do not start with
+            // one); an escaped sign is a corner the statement does not settle
+            match name.as_bytes().first() {
+                Some(c) if c.is_ascii_digit() => return Err(()),
+                Some(b'+') | Some(b'-') => UNSPECIFIED.with(|u| u.set(true)),
+                _ => {}
+            }
+            out.push(KP::Name(name));
         }
         skip(&mut i);
         match b.get(i) {
@@ -384,6 +402,10 @@ pub fn check_raw(b: &Bytes, obs: &mut Obs) -> Result<(), String> {
     // differential: accepted exactly when it is a brace list of the documented form, with
     // the same elements
     let want = ref_key_paths(&b.0);
+    if UNSPECIFIED.with(|u| u.get()) {
+        obs.label("unspecified-escaped-sign");
+        return Ok(());
+    }
     match (&r, &want) {
         (Ok(g), Ok(w)) if g == w => Ok(()),
         (Err(_), Err(())) => Ok(()),
